@@ -12,6 +12,7 @@ import (
 	"strings"
 	"time"
 
+	"google.golang.org/protobuf/types/known/wrapperspb"
 	corev1 "k8s.io/api/core/v1"
 	metav1 "k8s.io/apimachinery/pkg/apis/meta/v1"
 	"k8s.io/apimachinery/pkg/runtime"
@@ -69,6 +70,7 @@ type Op struct {
 	V       int               `json:"v,omitempty"`    // ef: a number inside the patch (content change)
 	Gw      []string          `json:"gw,omitempty"`   // vs: gateways
 	Srv     []string          `json:"srv,omitempty"`  // gw: port|protocol|host
+	Loc     string            `json:"loc,omitempty"`  // dr: localityLbSetting distribute | failover (endpoints: ip[/version][@region])
 }
 
 func (o Op) key() string {
@@ -178,7 +180,16 @@ var portTable = map[int]portDef{
 }
 
 func splitEp(e string) (ip, ver string) {
+	e, _ = splitLoc(e)
 	if i := strings.IndexByte(e, '/'); i >= 0 {
+		return e[:i], e[i+1:]
+	}
+	return e, ""
+}
+
+// splitLoc: the optional region of an endpoint ("ip[/version]@region"); its zone is "z1".
+func splitLoc(e string) (rest, region string) {
+	if i := strings.IndexByte(e, '@'); i >= 0 {
 		return e[:i], e[i+1:]
 	}
 	return e, ""
@@ -210,6 +221,9 @@ func render(o Op) config.Config {
 				if ver != "" {
 					we.Labels = map[string]string{"version": ver}
 				}
+				if _, region := splitLoc(e); region != "" {
+					we.Locality = region + "/z1"
+				}
 				se.Endpoints = append(se.Endpoints, we)
 			}
 		}
@@ -220,15 +234,32 @@ func render(o Op) config.Config {
 		for _, s := range o.Subsets {
 			dr.Subsets = append(dr.Subsets, &networking.Subset{Name: s, Labels: map[string]string{"version": s}})
 		}
-		if o.Lb != "" || o.Tls != "" {
+		if o.Lb != "" || o.Tls != "" || o.Loc != "" {
 			dr.TrafficPolicy = &networking.TrafficPolicy{}
+			switch o.Loc {
+			case "distribute":
+				dr.TrafficPolicy.LoadBalancer = &networking.LoadBalancerSettings{LocalityLbSetting: &networking.LocalityLoadBalancerSetting{
+					Distribute: []*networking.LocalityLoadBalancerSetting_Distribute{{From: "r1/*", To: map[string]uint32{"r1/*": 20, "r2/*": 80}}},
+				}}
+			case "failover":
+				dr.TrafficPolicy.LoadBalancer = &networking.LoadBalancerSettings{LocalityLbSetting: &networking.LocalityLoadBalancerSetting{
+					Failover: []*networking.LocalityLoadBalancerSetting_Failover{{From: "r1", To: "r2"}},
+				}}
+				dr.TrafficPolicy.OutlierDetection = &networking.OutlierDetection{Consecutive_5XxErrors: wrapperspb.UInt32(3)}
+			}
+			simple := func(v networking.LoadBalancerSettings_SimpleLB) {
+				if dr.TrafficPolicy.LoadBalancer == nil {
+					dr.TrafficPolicy.LoadBalancer = &networking.LoadBalancerSettings{}
+				}
+				dr.TrafficPolicy.LoadBalancer.LbPolicy = &networking.LoadBalancerSettings_Simple{Simple: v}
+			}
 			switch o.Lb {
 			case "RR":
-				dr.TrafficPolicy.LoadBalancer = &networking.LoadBalancerSettings{LbPolicy: &networking.LoadBalancerSettings_Simple{Simple: networking.LoadBalancerSettings_ROUND_ROBIN}}
+				simple(networking.LoadBalancerSettings_ROUND_ROBIN)
 			case "LR":
-				dr.TrafficPolicy.LoadBalancer = &networking.LoadBalancerSettings{LbPolicy: &networking.LoadBalancerSettings_Simple{Simple: networking.LoadBalancerSettings_LEAST_REQUEST}}
+				simple(networking.LoadBalancerSettings_LEAST_REQUEST)
 			case "RND":
-				dr.TrafficPolicy.LoadBalancer = &networking.LoadBalancerSettings{LbPolicy: &networking.LoadBalancerSettings_Simple{Simple: networking.LoadBalancerSettings_RANDOM}}
+				simple(networking.LoadBalancerSettings_RANDOM)
 			}
 			switch o.Tls {
 			case "MUTUAL":
@@ -302,6 +333,7 @@ func render(o Op) config.Config {
 //	merge      merges connect_timeout V s into the outbound clusters of port 80 (sidecars and gateways)
 //	ecds       adds the extension config ef-ext-<name> (content V) and inserts an HTTP filter that
 //	           refers to it by config discovery before the router of every outbound / gateway listener
+//	ecdsc / ecdsf  the two halves separately, for the shared name ef-ext-shared
 func envoyFilterYAML(o Op) string {
 	v := strconv.Itoa(1 + o.V)
 	addCluster := func(ctx string) string {
@@ -342,6 +374,46 @@ func envoyFilterYAML(o Op) string {
     value:
       connect_timeout: ` + v + `s
 `
+	case "ecdsc":
+		// only the extension config, under a shared name
+		return `configPatches:
+- applyTo: EXTENSION_CONFIG
+  patch:
+    operation: ADD
+    value:
+      name: ef-ext-shared
+      typed_config:
+        "@type": type.googleapis.com/udpa.type.v1.TypedStruct
+        type_url: type.googleapis.com/envoy.extensions.filters.http.buffer.v3.Buffer
+        value:
+          max_request_bytes: ` + v + `000
+`
+	case "ecdsf":
+		// only the HTTP filter that refers to the shared extension config: when no EnvoyFilter provides the config (any
+		// more) the generator answers nothing for the name - never-remove: both clients keep what they were sent
+		out := "configPatches:\n"
+		for _, ctx := range []string{"SIDECAR_OUTBOUND", "GATEWAY"} {
+			out += `- applyTo: HTTP_FILTER
+  match:
+    context: ` + ctx + `
+    listener:
+      filterChain:
+        filter:
+          name: envoy.filters.network.http_connection_manager
+          subFilter:
+            name: envoy.filters.http.router
+  patch:
+    operation: INSERT_BEFORE
+    value:
+      name: ef-ext-shared
+      config_discovery:
+        config_source:
+          ads: {}
+          initial_fetch_timeout: 0s
+        type_urls: ["type.googleapis.com/envoy.extensions.filters.http.buffer.v3.Buffer"]
+`
+		}
+		return out
 	case "ecds":
 		out := `configPatches:
 - applyTo: EXTENSION_CONFIG
@@ -433,6 +505,9 @@ func memEndpoints(o Op) []*model.IstioEndpoint {
 			ep := &model.IstioEndpoint{Addresses: []string{ip}, ServicePortName: d.Name, EndpointPort: uint32(p), Namespace: o.Ns}
 			if ver != "" {
 				ep.Labels = map[string]string{"version": ver}
+			}
+			if _, region := splitLoc(e); region != "" {
+				ep.Locality = model.Locality{Label: region + "/z1"}
 			}
 			out = append(out, ep)
 		}
@@ -550,7 +625,7 @@ func (st *site) apply(w *world, o Op) error {
 		if _, ok := w.KSvc[o.N]; ok {
 			return st.s.KubeClient().Kube().CoreV1().Services("default").Delete(context.Background(), o.N, metav1.DeleteOptions{})
 		}
-	case "sub", "unsub":
+	case "sub", "unsub", "csub", "cnack", "creconn":
 		// client side, handled by the stream
 	default:
 		return fmt.Errorf("unknown op %q", o.K)
@@ -631,6 +706,9 @@ func genDRWide(r *wire.Rng, w *world, name string, old *Op, clock *int) Op {
 	if len(o.Subsets) == 0 && r.Chance(3, 4) {
 		o.Subsets = wire.Pick(r, [][]string{{"v1"}, {"v1", "v2"}, {"v2"}})
 	}
+	if r.Chance(1, 3) {
+		o.Loc = wire.Pick(r, []string{"distribute", "failover"})
+	}
 	if old != nil {
 		o.Ns, o.T = old.Ns, old.T
 		if r.Chance(1, 2) {
@@ -658,7 +736,7 @@ func genPA(r *wire.Rng, name string, clock *int) Op {
 func genEF(r *wire.Rng, name string, clock *int) Op {
 	*clock++
 	return Op{K: "ef", N: name, Ns: wire.Pick(r, []string{proxyNs, proxyNs, "istio-system"}), T: *clock,
-		Mode: wire.Pick(r, []string{"cluster", "merge", "ecds", "ecds"}), V: r.Intn(3)}
+		Mode: wire.Pick(r, []string{"cluster", "merge", "ecds", "ecds", "ecdsf", "ecdsc"}), V: r.Intn(3)}
 }
 
 // genWideOp: the ops only the wide grammar has.
@@ -733,14 +811,18 @@ func genEps(r *wire.Rng, base int) []string {
 		if dup {
 			continue
 		}
+		e := ip
 		switch r.Intn(3) {
 		case 0:
-			out = append(out, ip+"/v1")
+			e = ip + "/v1"
 		case 1:
-			out = append(out, ip+"/v2")
-		default:
-			out = append(out, ip)
+			e = ip + "/v2"
 		}
+		if wideGrammar {
+			// regions, so that the locality load balancing of a DestinationRule shows in the endpoints
+			e += wire.Pick(r, []string{"", "@r1", "@r2", "@r2"})
+		}
+		out = append(out, e)
 	}
 	return out
 }
